@@ -54,7 +54,7 @@ type metaCfg struct {
 
 var scaleFields = map[string]bool{"MetaData": true, "Scale": true, "PlaintextMetaData": true}
 var scaleDeleg = map[*types.Func]map[int]bool{}
-var metaCur = &metaCfg{rule: "METAOUT", fields: metaFields, deleg: &metaDeleg, stat: "metaout_ops"}
+var metaCur = &metaCfg{rule: "METAOUT", fields: metaFields, deleg: &metaDeleg, cmpEdge: true, stat: "metaout_ops"}
 
 // metaDeleg: (function, parameter index) pairs known NOT to define the metadata of the element they receive there.
 // Computed as a greatest fixpoint over every function of the scope that has an output-named element parameter, so
@@ -62,13 +62,13 @@ var metaCur = &metaCfg{rule: "METAOUT", fields: metaFields, deleg: &metaDeleg, s
 var metaDeleg = map[*types.Func]map[int]bool{}
 
 func scanMetaOut(c *core.Ctx) []ob {
-	metaCur = &metaCfg{rule: "METAOUT", fields: metaFields, deleg: &metaDeleg, stat: "metaout_ops"}
+	metaCur = &metaCfg{rule: "METAOUT", fields: metaFields, deleg: &metaDeleg, cmpEdge: true, stat: "metaout_ops"}
 	return scanMetaCfg(c)
 }
 
 func scanScaleOut(c *core.Ctx) []ob {
 	metaCur = &metaCfg{rule: "SCALEOUT", fields: scaleFields, deleg: &scaleDeleg, cmpEdge: true, stat: "scaleout_ops"}
-	defer func() { metaCur = &metaCfg{rule: "METAOUT", fields: metaFields, deleg: &metaDeleg, stat: "metaout_ops"} }()
+	defer func() { metaCur = &metaCfg{rule: "METAOUT", fields: metaFields, deleg: &metaDeleg, cmpEdge: true, stat: "metaout_ops"} }()
 	return scanMetaCfg(c)
 }
 
@@ -426,7 +426,7 @@ func metaProps(key string) []string {
 
 func init() {
 	core.Register(&core.Rule{Name: "METAOUT", Props: []string{"C04", "C05", "C06", "C11", "C12", "C13", "C16", "C20"},
-		Doc: "every exported evaluator method with an output ciphertext writes that output's metadata, copies into it, initialises it through InitOutput*, hands it to a callee, or compares it with an operand (aliasing) on every path to a success return (must-analysis over go/cfg)",
+		Doc: "every exported evaluator method with an output ciphertext writes that output's metadata, copies into it, initialises it through InitOutput*, hands it to a callee that does, or is known to be an operand itself (the edge of `opOut == op` on which they are the same object) on every path to a success return (edge-sensitive must-analysis over go/cfg)",
 		Run: func(c *core.Ctx) []ob {
 			out := scanMetaOut(c)
 			for i := range out {
